@@ -39,15 +39,44 @@ theorem clip_eq'' (x : ℝ) : Num.clip x ((0 : Rat) : ℝ) ((1 : Rat) : ℝ) = c
 theorem isFiniteB_real (y : ℝ) : isFiniteB y = true := by
   unfold isFiniteB; rw [feq_iff]
 
+/-! ### shape-independent tie tactics
+
+`Generated/Stretch.lean` is rewritten from the source on every run, so the proofs that tie it to the closed forms
+must not depend on the SHAPE of the generated terms: the carrier operations are rewritten into Mathlib notation, the
+parameter comparisons are split, and commutative-ring normalisation (`ring_nf`, also inside the arguments of
+log/exp/sinh/arsinh) decides. -/
+
+set_option linter.unusedTactic false
+set_option linter.unreachableTactic false
+set_option linter.unnecessarySeqFocus false
+
+/-- carrier operations at ℝ in Mathlib notation -/
+macro "carrier_simp" : tactic => `(tactic|
+  simp only [clip_eq, clip_eq', clip_eq'', NumReal.add_eq, NumReal.mul_eq, NumReal.sub_eq, NumReal.div_eq,
+    NumReal.neg_eq, NumReal.ofRat_eq, NumReal.log_eq, NumReal.exp_eq, NumReal.sinh_eq, NumReal.asinh_eq,
+    NumReal.rpow_eq, NumReal.sqrt_eq, NumReal.max_eq, NumReal.min_eq, NumReal.leb_eq, NumReal.ltb_eq,
+    feq_iff, fne_iff, leb_false_iff, ltb_false_iff, Bool.and_eq_true, Bool.or_eq_true, Bool.not_eq_true',
+    Bool.not_eq_eq_eq_not, Bool.not_true, Bool.not_false, Bool.true_and, Bool.and_true, decide_eq_true_eq,
+    if_true, if_false, Bool.false_eq_true, Bool.ite_eq_true_distrib])
+
+/-- `generated term = closed form`, whatever the shape of the generated term -/
+macro "stretch_tie" : tactic => `(tactic|
+  ((try carrier_simp) <;> (try push_cast) <;> (try split_ifs) <;> (try simp_all) <;> (try ring_nf) <;>
+    (try (field_simp <;> ring_nf))))
+
 /-! ### the interval map -/
 
+/-- the traced `BaseInterval.__call__` body is the affine map + clip -/
 theorem intervalFin_eq (vmin vmax x : ℝ) :
     intervalFin vmin vmax x =
       if vmax - vmin ≠ 0 then clip01 ((x - vmin) / (vmax - vmin)) else clip01 (x - vmin) := by
-  unfold intervalFin
-  by_cases h : vmax - vmin = 0
-  · simp [fne_iff, clip_eq', h]
-  · simp [fne_iff, clip_eq', h]
+  unfold intervalFin baseIntervalCall
+  stretch_tie
+
+/-- the traced `BaseInterval.inverse` body -/
+theorem intervalInverse_eq (vmin vmax y : ℝ) : intervalInverse vmin vmax y = y * (vmax - vmin) + vmin := by
+  unfold intervalInverse baseIntervalInverse
+  stretch_tie
 
 theorem intervalFin_mem (vmin vmax x : ℝ) : 0 ≤ intervalFin vmin vmax x ∧ intervalFin vmin vmax x ≤ 1 := by
   rw [intervalFin_eq]; split <;> exact ⟨clip01_nonneg _, clip01_le_one _⟩
@@ -176,24 +205,6 @@ parameter comparisons are split, and commutative-ring normalisation (`ring_nf`, 
 arguments of log/exp/sinh/arsinh) decides.  A behaviour-preserving rewrite of a `__call__` body
 (re-associated / commuted arithmetic, `2x - 1` for `(x - 1/2)·2`, a reciprocal for a division, another
 nesting of the parameter tests) keeps them proving; a changed formula does not. -/
-
-set_option linter.unusedTactic false
-set_option linter.unreachableTactic false
-set_option linter.unnecessarySeqFocus false
-
-/-- carrier operations at ℝ in Mathlib notation -/
-macro "carrier_simp" : tactic => `(tactic|
-  simp only [clip_eq, clip_eq', clip_eq'', NumReal.add_eq, NumReal.mul_eq, NumReal.sub_eq, NumReal.div_eq,
-    NumReal.neg_eq, NumReal.ofRat_eq, NumReal.log_eq, NumReal.exp_eq, NumReal.sinh_eq, NumReal.asinh_eq,
-    NumReal.rpow_eq, NumReal.sqrt_eq, NumReal.max_eq, NumReal.min_eq, NumReal.leb_eq, NumReal.ltb_eq,
-    feq_iff, fne_iff, leb_false_iff, ltb_false_iff, Bool.and_eq_true, Bool.or_eq_true, Bool.not_eq_true',
-    Bool.not_eq_eq_eq_not, Bool.not_true, Bool.not_false, Bool.true_and, Bool.and_true, decide_eq_true_eq,
-    if_true, if_false, Bool.false_eq_true, Bool.ite_eq_true_distrib])
-
-/-- `generated term = closed form`, whatever the shape of the generated term -/
-macro "stretch_tie" : tactic => `(tactic|
-  ((try carrier_simp) <;> (try push_cast) <;> (try split_ifs) <;> (try simp_all) <;> (try ring_nf) <;>
-    (try (field_simp <;> ring_nf))))
 
 theorem linear_call_eq (s : LinearStretch ℝ) (x : ℝ) : s.call x = linearS s.slope s.intercept x := by
   unfold LinearStretch.call linearS
